@@ -102,6 +102,23 @@ def _replay(rec: Dict[str, Any]) -> List[Tuple[str, Dict[str, Any], str]]:
                         disc = "one-shot-evaluation-differs"
                     elif len(vals) != len(ms) or any(v is not m.obj for v, m in zip(vals, ms)):
                         disc = "findall-differs-from-finditer"
+                    else:
+                        # the same evaluation as a task, and with the document given as JSON text; what the caller
+                        # does to the values returned from a text document must not reach later evaluations
+                        from ..pathcommon import _drive
+
+                        avals = _drive(path.findall_async(docs[h["d"] - 1], filter_context=ctxs[h["c"] - 1]))
+                        if len(avals) != len(ms) or any(v is not m.obj for v, m in zip(avals, ms)):
+                            disc = "async-one-shot-evaluation-differs"
+                        else:
+                            tvals = path.findall(json.dumps(docs[h["d"] - 1]), filter_context=ctxs[h["c"] - 1])
+                            if [canon(tag(v)) for v in tvals] != [canon(tag(m.obj)) for m in ms]:
+                                disc = "evaluation-of-the-json-text-differs"
+                            for v in tvals:
+                                if isinstance(v, list):
+                                    v.append("touched-by-caller")
+                                elif isinstance(v, dict):
+                                    v["touched-by-caller"] = True
                 elif h["act"] == "recompile":
                     p2 = env.compile(text)
                     if not (p2 == path) or hash(p2) != hash(path) or str(p2) != str(path):
@@ -173,7 +190,7 @@ def run(chk: Check, tier: str, seed: int) -> None:
             continue
         for sig, case, what in res["viol"]:
             chk.violation(sig, case, what)
-        if res["events"]:
+        if res["events"] and (tier != "quick" or len(traces) < 12000):
             traces.append({"id": len(traces) + 1, "events": res["events"], "_rec": rec})
     # ---- code -> specification: the hook events of every history validated by TLC (Trace_Cache.tla)
     if traces:
